@@ -542,6 +542,8 @@ pub fn run_scripted(spec: &Spec) -> Run {
             v
         };
         cells.push(SharedValue::new(v));
+        // reversed=1: some declared ranges are EMPTY (min > max), as for a cell shorter than the 0.01 floor
+        let (lo, hi) = if spec.u_or("reversed", 0) == 1 && g.below(3) == 0 { (hi, lo) } else { (lo, hi) };
         handles.push((i, lo, hi));
     }
     for _ in 0..share {
@@ -1025,7 +1027,8 @@ pub fn monitor(run: &Run) -> (Vec<Finding>, Stats) {
                         });
                     }
                     let bound = s.max_step * (hi - lo) / 2.;
-                    if !((a - b).abs() <= bound * (1. + 1e-9) + 1e-300 + 4. * f64::EPSILON * a.abs().max(b.abs())) {
+                    // (an empty declared range, min > max, has no meaningful step bound or membership)
+                    if lo <= hi && !((a - b).abs() <= bound * (1. + 1e-9) + 1e-300 + 4. * f64::EPSILON * a.abs().max(b.abs())) {
                         v.push(Finding {
                             property: "C19",
                             what: format!(
@@ -1034,7 +1037,7 @@ pub fn monitor(run: &Run) -> (Vec<Finding>, Stats) {
                             ),
                         });
                     }
-                    if a.is_nan() || *a < lo || *a > hi {
+                    if lo <= hi && (a.is_nan() || *a < lo || *a > hi) {
                         v.push(Finding {
                             property: "C08",
                             what: format!("proposal {} sets parameter {} to {:?} outside [{:?}, {:?}]", k, i, a, lo, hi),
